@@ -84,6 +84,9 @@ def strategy(tier):
             case["row"] = draw(gen.rows(crit, True, focus=focus))
         elif mode == "structure":
             case["variant"] = draw(gen.variant_of(spec))
+            # declared parameters distinguish two aggregators before any datum does
+            if draw(st.integers(0, 3)) == 0:
+                case["stream"] = []
         elif mode == "perturb":
             case["node"] = draw(st.integers(0, 200))
             case["field"] = draw(st.integers(0, 5))
@@ -297,6 +300,15 @@ def check(case):  # noqa: PLR0912, PLR0915
             b = fill(build(v["spec"]), stream)
             what = "structure:" + v["desc"]
             labels.append("variant:" + v["desc"])
+            if not stream:
+                # nothing filled: every single-aspect variant of the declaration is compared, not only the drawn one
+                labels.append("all-variants-unfilled")
+                for _, desc, vspec in gen.all_variants(spec):
+                    other = build(vspec)
+                    da, db = ndoc(a), ndoc(other)
+                    if not norm.same(da, db, norm.BITEXACT):
+                        # (tolerance 0 only: a positive tolerance may legitimately bridge a tiny numeric difference)
+                        require(not eq3(a, other, f"structure:{desc} (unfilled)"), "equal-but-different", lambda: f"structure:{desc} (both unfilled): a == b is True although the declarations differ: {norm.fmt(norm.diff(da, db, norm.BITEXACT))}")  # noqa: B023
         elif mode == "perturb":
             b = pickle.loads(pickle.dumps(a))
             what = perturb(b, case["node"], case["field"], case["amount"])
